@@ -26,6 +26,8 @@ import RV.Base.Proto
     vchoices k P L x y               -> sorted triples   (through a view)
     path T K s o G C | pathin T K s o G -> the graph a property-path pattern is evaluated over: key or `*` (the union)
     vpath k K s o                    -> k
+    setdu T b                        -> ok       (`top.default_union = b` at run time)
+    iter d                           -> sorted quads   (`Dataset.__iter__`)
 -/
 open RV RV.C02 RV.Proto
 
@@ -215,6 +217,18 @@ def step (s : St) : List String → St × String
     | some k => (s, toString (vLen s.mem k))
     | none => (s, "bad-op")
   | ["sctx"] => (s, showKeys s.mem.allc)
+  | ["setdu", w, b] =>
+    match top? w, bool? b with
+    | some w, some b =>
+      let r := stepS (s.cfg w, s.mem) (.setUnion b)
+      (if w then { s with duD := r.1.du, mem := r.2 } else { s with duC := r.1.du, mem := r.2 }, "ok")
+    | _, _ => (s, "bad-op")
+  | ["iter", w] =>
+    match top? w with
+    | some true =>
+      let r := dsIter (s.cfg true) s.mem
+      ({ s with mem := r.1 }, showQuads r.2)
+    | _ => (s, "bad-op")
   | ["choices", w, pos, l, x, y, ctx] =>
     match top? w, choice? pos l x y, garg? ctx with
     | some w, some ch, some ctx =>
